@@ -54,6 +54,8 @@ type PathState struct {
 	OriginsAt  int
 	// OriginsOrder != 0: the published origin list is a permutation of the collected one
 	OriginsOrder uint64
+	// Builtins: range-less targets the server adds itself
+	Builtins reference.Targets
 	Epoch      int // bumped by every edit / schema swap in this path
 	ctx        *decoder.PathContext
 }
@@ -118,6 +120,9 @@ func NewStore(w *world.World) *Store {
 	for i, ps := range w.Paths {
 		p := &PathState{Index: i, Spec: ps, Path: lang.Path{Path: ps.Dir, LanguageID: ps.Lang}, TargetsAt: -1, OriginsAt: -1}
 		p.Schema = world.CompileBody(ps.Schema)
+		for _, b := range w.Builtins {
+			p.Builtins = append(p.Builtins, reference.Target{Addr: world.ParseAddr(b.Addr), ScopeId: lang.ScopeId(b.Scope), Type: world.ParseType(b.Type), Name: "built-in"})
+		}
 		p.Funcs = world.CompileFuncs(ps.Funcs)
 		p.Validators = world.CompileValidators(ps.Validators)
 		for _, fs := range ps.Files {
@@ -335,10 +340,16 @@ func (p *PathState) publish() {
 			origins[i], origins[j] = origins[j], origins[i]
 		}
 	}
+	targets := p.Targets
+	if len(p.Builtins) > 0 {
+		// what the server knows without any declaration: appended to whatever
+		// was collected, as terraform-ls does for its built-in references
+		targets = append(append(reference.Targets(nil), targets...), p.Builtins...)
+	}
 	p.ctx = &decoder.PathContext{
 		Schema:           p.Schema,
 		ReferenceOrigins: origins,
-		ReferenceTargets: p.Targets,
+		ReferenceTargets: targets,
 		Files:            files,
 		Functions:        p.Funcs,
 		Validators:       p.Validators,
@@ -559,10 +570,18 @@ func (s *Store) Quiesce() {
 		s.JobStart("origins", i)
 		s.JobFinish("origins", i)
 	}
-	// a crashed job leaves TargetsAt behind; mark as collected-from-current so
-	// quiescent oracles still run on what the server would have (empty sets)
+	// a crashed job leaves TargetsAt behind: the server has nothing for the
+	// current text (keeping the older set would hand oracles ranges of a text
+	// that no longer exists)
 	for _, p := range s.Paths {
+		if p.TargetsAt != p.Epoch {
+			p.Targets = nil
+		}
+		if p.OriginsAt != p.Epoch {
+			p.Origins = nil
+		}
 		p.TargetsAt, p.OriginsAt = p.Epoch, p.Epoch
+		p.publish()
 	}
 }
 
